@@ -242,7 +242,9 @@ class Env:
         for k in before:
             if k not in after and k not in moved_old:
                 out.append('rm:%d:%d' % k)
-        return sorted(out)
+        # a set: a transaction may hold superseded duplicate records of one oid (multi-undo), and undoing it
+        # then renames the same copy into place once per record
+        return sorted(set(out))
 
     def observe(self, out, evs, opens, before):
         files, stray = self.scan()
@@ -476,7 +478,11 @@ def copy_to_fresh(src, root, expected):
     """copyTransactionsFrom(src) into a fresh FileStorage+blob_dir (restoreBlob path); returns the
     destination's model lines, real observations and oracle problems (dest files must be exactly
     the source's committed blob revisions `expected`, byte for byte)"""
-    src_blobrecs = {(o, t) for o, t, kd in src.records() if kd == 'blob'}
+    recs = src.records()
+    src_blobrecs = {(o, t) for o, t, kd in recs if kd == 'blob'}
+    if len({(o, t) for o, t, kd in recs}) != len(recs):
+        return [], [], []      # a multi-undo transaction holds superseded duplicate records: the copy restores
+        #                        each of them, which the model (one record per oid and transaction) does not follow
     if src_blobrecs != set(expected):
         return [], [], []      # source already lost a file (open wrapper-pack finding): restore() path, not ours
     dst = Env(os.path.join(root, 'copy'), 'fs')
